@@ -153,32 +153,49 @@ Proof.
   cbv zeta. unfold fallback_layer. destruct (inner c w) as [r w1]. cbn [fst snd]. intros H. rewrite H. reflexivity.
 Qed.
 
-(* a handled failure: when the execution is not cancelled the fallback is applied exactly once, to the
-   failed result and error, its output replaces the result and is classified by the same conditions *)
+(* a handled failure: when the execution is not cancelled -- neither when the fallback is about to be applied (after the
+   policy's own failure listener, however long that took) nor when the fallback function has returned (however long that
+   took) -- the fallback is applied exactly once, to the failed result and error, its output replaces the result and is
+   classified by the same conditions *)
 Theorem fallback_handled_replaces pos cfg (inner : layer) c w :
   let r := fst (inner c w) in let w1 := snd (inner c w) in
-  let w2 := ev_with_result w1 c KPolFailure pos (with_failure r) in
-  is_failure (fb_fpol cfg) (pr_out r) = true -> is_canceled w2 c = None ->
+  let w2 := pause (ev_with_result w1 c KPolFailure pos (with_failure r)) (fb_lsn_dur cfg) in
+  let w3 := pause w2 (fb_dur cfg) in
+  is_failure (fb_fpol cfg) (pr_out r) = true -> is_canceled w2 c = None -> is_canceled w3 c = None ->
   let seen := (pr_res r, match pr_err r with Some e => Some e | None => copy_err w2 c end) in
   let o := fb_apply (fb_kind_of cfg) seen in
   let ok := negb (is_failure (fb_fpol cfg) o) in
   fallback_layer pos cfg inner c w =
     ({| pr_res := fst o; pr_err := snd o; pr_done := true; pr_succ := ok; pr_all := ok |},
-     emit w2 KFallbackExecuted pos o 0).
+     emit w3 KFallbackExecuted pos o 0).
 Proof.
-  cbv zeta. unfold fallback_layer. destruct (inner c w) as [r w1]. cbn [fst snd]. intros H Hc. rewrite H.
-  cbn [pr_succ with_failure]. rewrite Hc. reflexivity.
+  cbv zeta. unfold fallback_layer. destruct (inner c w) as [r w1]. cbn [fst snd]. intros H Hc Hc'. rewrite H.
+  cbn [pr_succ with_failure]. rewrite Hc, Hc'. reflexivity.
 Qed.
 
-(* a cancelled execution never gets the fallback's output *)
+(* a cancelled execution never gets the fallback's output, and the fallback function is not even entered: the cancellation is
+   looked at after the failure listener has returned, not before *)
 Theorem fallback_not_applied_when_cancelled pos cfg (inner : layer) c w cr :
   let r := fst (inner c w) in let w1 := snd (inner c w) in
-  let w2 := ev_with_result w1 c KPolFailure pos (with_failure r) in
+  let w2 := pause (ev_with_result w1 c KPolFailure pos (with_failure r)) (fb_lsn_dur cfg) in
   is_failure (fb_fpol cfg) (pr_out r) = true -> is_canceled w2 c = Some cr ->
   fallback_layer pos cfg inner c w = (cr, w2).
 Proof.
   cbv zeta. unfold fallback_layer. destruct (inner c w) as [r w1]. cbn [fst snd]. intros H Hc. rewrite H.
   cbn [pr_succ with_failure]. rewrite Hc. reflexivity.
+Qed.
+
+(* a cancellation that arrives while the fallback function runs wins over the function's output: the execution reports
+   the cancellation's result and no OnFallbackExecuted event *)
+Theorem fallback_output_dropped_when_cancelled_meanwhile pos cfg (inner : layer) c w cr :
+  let r := fst (inner c w) in let w1 := snd (inner c w) in
+  let w2 := pause (ev_with_result w1 c KPolFailure pos (with_failure r)) (fb_lsn_dur cfg) in
+  let w3 := pause w2 (fb_dur cfg) in
+  is_failure (fb_fpol cfg) (pr_out r) = true -> is_canceled w2 c = None -> is_canceled w3 c = Some cr ->
+  fallback_layer pos cfg inner c w = (cr, w3).
+Proof.
+  cbv zeta. unfold fallback_layer. destruct (inner c w) as [r w1]. cbn [fst snd]. intros H Hc Hc'. rewrite H.
+  cbn [pr_succ with_failure]. rewrite Hc, Hc'. reflexivity.
 Qed.
 
 (* ------------------------------------------------------------------ *)
@@ -241,12 +258,16 @@ Proof. unfold get_rstate. intros ->. reflexivity. Qed.
 Lemma get_put_rstate w pos r : get_rstate (put_rstate w pos r) pos = r.
 Proof. unfold get_rstate, put_rstate. cbn [w_retry set_retry find fst snd]. rewrite Nat.eqb_refl. reflexivity. Qed.
 
+Lemma pause_sps w d : same_policy_state w (pause w d).
+Proof. unfold pause. destruct (0 <? d); [apply wait_sps|apply sps_refl]. Qed.
+
 (* one pass of OnFailure, read off the code *)
 Lemma retry_on_failure_rstate cfg pos c r w :
-  let rs := get_rstate (ev_with_result w c KPolFailure pos r) pos in
+  let w0 := pause (ev_with_result w c KPolFailure pos r) (r_lsn_dur cfg) in   (* the failure listener has returned *)
+  let rs := get_rstate w0 pos in
   let failed := rs_failed rs + 1 in
   let exceeded := (negb (r_max_retries cfg =? -1) && (r_max_retries cfg <? failed))
-                  || (negb (r_max_duration cfg =? 0) && (r_max_duration cfg <? w_now w - w_start w)) in
+                  || (negb (r_max_duration cfg =? 0) && (r_max_duration cfg <? w_now w0 - w_start w0)) in
   get_rstate (snd (retry_on_failure cfg pos c r w)) pos = {| rs_failed := failed; rs_exceeded := exceeded |}
   /\ (exceeded = true -> pr_done (fst (retry_on_failure cfg pos c r w)) = true)
   /\ (exceeded = true -> r_return_last cfg = false ->
@@ -255,9 +276,7 @@ Lemma retry_on_failure_rstate cfg pos c r w :
   /\ (is_abortable (r_abort cfg) (pr_out r) = true -> pr_done (fst (retry_on_failure cfg pos c r w)) = true).
 Proof.
   cbv zeta. unfold retry_on_failure.
-  set (w0 := ev_with_result w c KPolFailure pos r).
-  assert (Hn : w_now w0 = w_now w /\ w_start w0 = w_start w) by (subst w0; unfold ev_with_result, emit; cbn; auto).
-  destruct Hn as [-> ->].
+  set (w0 := pause (ev_with_result w c KPolFailure pos r) (r_lsn_dur cfg)).
   set (failed := rs_failed (get_rstate w0 pos) + 1).
   set (exceeded := _ || _).
   set (w1 := put_rstate w0 pos _).
@@ -303,8 +322,8 @@ Proof.
       match goal with |- context [retry_loop fuel cfg pos inner c ?w9] =>
         assert (H9 : get_rstate w9 pos = get_rstate w2 pos) end.
       { apply get_rstate_ext. unfold ev_with_result, emit. cbn. rewrite (sp_retry _ _ Hw). reflexivity. }
-      assert (Hg1 : get_rstate (ev_with_result w1 c KPolFailure pos (with_failure r)) pos = get_rstate w1 pos)
-        by (apply get_rstate_ext; reflexivity).
+      assert (Hg1 : get_rstate (pause (ev_with_result w1 c KPolFailure pos (with_failure r)) (r_lsn_dur cfg)) pos = get_rstate w1 pos).
+      { apply get_rstate_ext. rewrite (sp_retry _ _ (pause_sps _ _)). reflexivity. }
       rewrite Hg1, Hfr in Hrs, Hdone.
       (* not exceeded, otherwise the result would have been done *)
       match type of Hrs with _ = {| rs_failed := ?f; rs_exceeded := ?e |} => destruct e eqn:Ee end.
@@ -459,13 +478,22 @@ Proof. cbn [retry_loop]. destruct (inner c w) as [r w1]. cbn [snd]. intros ->. r
 Theorem wait_interrupted_immediately w d c e : copy_err w c = Some e -> wait w d (Some c) = (true, w).
 Proof. intros H. unfold wait, wait_fuel. cbn [Nat.add advance]. rewrite H. reflexivity. Qed.
 
-(* a fallback inside the cancelled scope is never applied (C10's theorem restated for C08) *)
+(* a fallback inside the cancelled scope is never applied (C10's theorems restated for C08), and a cancellation that arrives
+   while it runs is what the execution reports *)
 Theorem no_fallback_after_cancel pos cfg (inner : layer) c w cr :
   let r := fst (inner c w) in let w1 := snd (inner c w) in
-  let w2 := ev_with_result w1 c KPolFailure pos (with_failure r) in
+  let w2 := pause (ev_with_result w1 c KPolFailure pos (with_failure r)) (fb_lsn_dur cfg) in
   is_failure (fb_fpol cfg) (pr_out r) = true -> is_canceled w2 c = Some cr ->
   fallback_layer pos cfg inner c w = (cr, w2).
 Proof. exact (fallback_not_applied_when_cancelled pos cfg inner c w cr). Qed.
+
+Theorem cancel_during_fallback_reported pos cfg (inner : layer) c w cr :
+  let r := fst (inner c w) in let w1 := snd (inner c w) in
+  let w2 := pause (ev_with_result w1 c KPolFailure pos (with_failure r)) (fb_lsn_dur cfg) in
+  let w3 := pause w2 (fb_dur cfg) in
+  is_failure (fb_fpol cfg) (pr_out r) = true -> is_canceled w2 c = None -> is_canceled w3 c = Some cr ->
+  fallback_layer pos cfg inner c w = (cr, w3).
+Proof. exact (fallback_output_dropped_when_cancelled_meanwhile pos cfg inner c w cr). Qed.
 
 (* a rate-limiter wait that is interrupted by the cancellation fails with the execution's last error
    (the cause) and does not run what it wraps *)
